@@ -241,12 +241,14 @@ func (g *Gen) store(st *State, p *Val, v *Val, pos token.Pos, text string) {
 			unsup("store into constant table")
 		}
 		g.frameStore(st, p, pos, text)
+		g.assume(st.reach, "(<= 0 "+p.Arr+")") // string-constant memory is never written (a fault; excluded by C12)
 		g.storeElem(st, deref(p.T), p.Arr, p.Idx, v)
 	case KArrPtr:
 		at := deref(p.T).Underlying().(*types.Array)
 		if p.Arr == "tbl" {
 			unsup("store into constant table")
 		}
+		g.frameStore(st, p, pos, text)
 		old, nw := g.setMem(st, at.Elem(), "", kindOf(at.Elem()))
 		g.emit("(assert " + eq(nw, sto(old, p.Arr, v.S)) + ")")
 	default:
@@ -270,6 +272,7 @@ func (g *Gen) nilCheck(st *State, p *Val, pos token.Pos, text string) {
 
 // frameStore is a hook for write-frame obligations (C12); filled by frames.go
 func (g *Gen) frameStore(st *State, p *Val, pos token.Pos, text string) {
+	g.frameCheckStore(st, p, pos, text)
 	if g.onStore != nil {
 		g.onStore(g, st, p, pos, text)
 	}
@@ -749,6 +752,7 @@ func (g *Gen) doMapUpdate(st *State, x *ssa.MapUpdate) {
 	k := mapKeyTerm(g, g.val(st, x.Key))
 	v := g.val(st, x.Value)
 	g.oblige("nil", "map write "+g.textAt(x.Pos()), x.Pos(), st.reach, not(eq(m.S, "0")))
+	g.frameCheckMap(st, m.S, x.Pos(), g.textAt(x.Pos()))
 	has, vp, vt := g.mapArrays(st, x.Map.Type())
 	old := g.heapSym(st.heap, has)
 	nw := g.fresh(has, "(Array Int (Array Int Bool))")
